@@ -81,7 +81,8 @@ def build_tools():
             _write_if_changed(os.path.join(hdir, "go.sum"), f.read())
     except FileNotFoundError:
         pass
-    rc, out = sh(["go", "build", "-tags", "verif", "-o", HARNESS, "."], cwd=hdir, env=GOENV)
+    cover = ["-cover", "-coverpkg=github.com/kisielk/og-rek"] if os.environ.get("VERIF_COVER") else []   # diagnostic only
+    rc, out = sh(["go", "build", "-tags", "verif"] + cover + ["-o", HARNESS, "."], cwd=hdir, env=GOENV)
     if rc != 0:
         raise BuildFailure("harness does not build against /repo (tag verif)", out)
 
@@ -204,22 +205,30 @@ def run_executor(cmd, lines, timeout=900, env=None, chunk=4000, label="executor"
 
 
 def _run_part(cmd, part, timeout, env, label):
-    try:
-        rc, out, err = _run_lines(cmd, part, timeout, env)
-    except subprocess.TimeoutExpired:
-        rc, out, err = -9, [], "timeout"
-    if rc == 0 and len(out) == len(part):
-        return out
-    if len(part) == 1:
-        reason = (err or "").strip().split("\n")[0][:200] if err else f"exit {rc}"
-        return [f"CRASH {label}: {reason}"]
-    mid = len(part) // 2
-    return _run_part(cmd, part[:mid], timeout, env, label) + _run_part(cmd, part[mid:], timeout, env, label)
+    """Answers are flushed line by line, so after a crash the answers received so far stand, the next line is the one
+    that crashed (confirmed by running it alone), and the rest is fed to a fresh process: one process per crash."""
+    res = []
+    while part:
+        try:
+            rc, out, err = _run_lines(cmd, part, timeout, env)
+        except subprocess.TimeoutExpired:
+            rc, out, err = -9, [], "timeout"
+        if rc == 0 and len(out) == len(part):
+            return res + out
+        if len(part) == 1:
+            reason = (err or "").strip().split("\n")[0][:200] if err else f"exit {rc}"
+            return res + [f"CRASH {label}: {reason}"]
+        k = min(len(out), len(part) - 1)
+        res += out[:k] + _run_part(cmd, [part[k]], timeout, env, label)
+        part = part[k + 1:]
+    return res
 
 
 def go_env():
     e = dict(os.environ)
     e.setdefault("GOMEMLIMIT", "4GiB")
+    if os.environ.get("VERIF_COVER"):
+        e["GOCOVERDIR"] = os.environ["VERIF_COVER"]
     return e
 
 
@@ -251,10 +260,13 @@ def run_sharded(runner, lines, shards=None):
     n = shards or min(12, max(1, len(lines) // 2000))
     if n <= 1:
         return runner(lines)
-    size = (len(lines) + n - 1) // n
-    parts = [lines[i:i + size] for i in range(0, len(lines), size)]
+    # round-robin: neighbouring lines (often the expensive or crashing ones of one family) go to different shards
+    parts = [lines[i::n] for i in range(n)]
     outs = parallel_map(runner, parts, workers=n)
-    return [x for o in outs for x in o]
+    res = [None] * len(lines)
+    for i, o in enumerate(outs):
+        res[i::n] = o
+    return res
 
 
 # ---------------------------------------------------------------- findings / evidence
